@@ -57,19 +57,20 @@ func (World) Assumptions(string) []string {
 		"a non-existing account is read as balance 0 / nonce 0",
 		"fee collector = fees of closed blocks (read at commit, then CreateBlockStarted) + current accumulator",
 		"get_error arm: a read error fires only inside ProcessTransaction; accounts must be unchanged after the revert exactly as for any rejection; only the fee accumulator is relaxed (it may keep the fee of the aborted transaction), never under the fault-free arm; revert, commit and oracle reads run without faults",
-		"restart happens only right after Commit (no dirty crash); a per-account change across commit/restart with unchanged total is reported as harness trouble (recoverability is C03), a changed total as conservation violation",
+		"restart happens only right after Commit (no dirty crash); nothing is read right after a restart, the next sweep compares every account with the model (kind changed-outside-its-transactions) and the total (kind conservation)",
+		"whether a rejection left journal entries behind (work for the caller's RevertToSnapshot) is only a probe: the statement is read at the level of the block processor protocol, which always reverts a rejected transaction",
 	}
 }
 
 func (World) Rule(string) string {
-	return "2-4 user accounts (one may not exist yet) plus 0-12 bystander accounts in a committed genesis, balances around multiples of minGasLimit*minGasPrice (0, exactly one fee, +-1, huge); economics drawn per run (min gas price 1/10/1e9, min gas limit 1/500/50000, gas per byte 0/1/1500, modifier 0.01/0.5/1, max gas per block), enable epochs of penalized-too-much-gas / gas-price-modifier / meta-protection / relayed drawn 0-3 and a start epoch, trie level in memory 1-5, storer cache 1-100, three address layouts; " +
+	return "2-4 user accounts (one may not exist yet) plus 0-12 bystander accounts in a committed genesis, balances around multiples of minGasLimit*minGasPrice (0, exactly one fee, +-1, huge); economics drawn per run (min gas price 1/10/1e9, min gas limit 1/500/50000, gas per byte 0/1/1500, modifier 0.01/0.5/1, max gas per block), enable epochs of penalized-too-much-gas / gas-price-modifier / meta-protection / relayed drawn 0-3 and a start epoch, trie level in memory 1-5, storer cache 1-100, four address layouts (one deep: alternating branch/extension nodes so that commits collapse nodes and transactions read the disk); " +
 		"5-40 transactions: value absolute (0, 1, fee-sized, above total supply, too many bytes) or relative to the sender balance (balance - fee +-k for three fee readings, balance + k), gas price min+k / below min / absolute, gas limit required+k / required-1 / at the block limit, data 0-12 bytes, nonce equal / lower / +1 / +7, sender==receiver; epoch changes, commit (end of block), commit+restart from the root; " +
-		"arm get_error fails the n-th (0-3) disk read inside ProcessTransaction on 10-50% of the transactions; " +
+		"arm get_error fails the n-th (0-3) disk read inside ProcessTransaction on 10-50% of the transactions (that arm commits and restarts more often and keeps 1-3 trie levels in memory, so reads are cold); after every transaction the oracle reads sender and receiver only, every account is swept at the end of each block, before each restart and at the end of the run; " +
 		"non-trivial = at least one successful transfer and at least one charged failure or rejection; distinct = hash of full plan"
 }
 
 func (World) Budget(prop, tier string) int {
-	q := 20000
+	q := 16000
 	if tier == "thorough" {
 		return q * 30
 	}
